@@ -293,11 +293,15 @@ class Lexer:
         try:
             self.match("'")
 
-            # A character constant may be an escaped sequence
-            # We assume a single alpha-numerical character or space
+            # A character constant may be an escape sequence, which
+            # extends to the closing quote (e.g. \n, \', \0, \101, \x41).
+            # Otherwise we assume a single printable character.
             if self.read() == "\\" and self.read(2).isprintable():
-                value = self.read(2)
-                self.pos += 2
+                end = self.string.find("'", self.pos + 2)
+                if end == -1:
+                    raise TokenError("Expected closing quote.")
+                value = self.string[self.pos : end]
+                self.pos = end
             elif self.read().isprintable():
                 value = self.read()
                 self.pos += 1
@@ -2057,7 +2061,29 @@ class ExpressionEvaluator(Parser):
         # Convert from character literals to integer value.
         try:
             constant = self.match_type(CharacterConstant)
-            return np.int64(ord(constant.token))
+            character = constant.token
+            if character.startswith("\\"):
+                escapes = {
+                    "a": 7,
+                    "b": 8,
+                    "f": 12,
+                    "n": 10,
+                    "r": 13,
+                    "t": 9,
+                    "v": 11,
+                    "\\": 92,
+                    "'": 39,
+                    '"': 34,
+                    "?": 63,
+                }
+                sequence = character[1:]
+                if sequence in escapes:
+                    return np.int64(escapes[sequence])
+                elif sequence[0] == "x":
+                    return np.int64(int(sequence[1:], 16))
+                else:
+                    return np.int64(int(sequence, 8))
+            return np.int64(ord(character))
         except ParseError:
             self.pos = initial_pos
 
